@@ -15,6 +15,17 @@ PROPS = {
     },
 }
 
+PROPS["C14"] = {
+    "level": "proof",
+    "text": "Loop-invariant proofs on the real poly_a_trim_index (both directions), on expected_errors_from_phreds (C header via "
+            "clang's AST, uint8 wrap-around modelled) and its Cython wrapper, on NEndTrimmer, PolyATrimmer and TooManyN, against the "
+            "definitions in the statement; the 94 table literals are compared exhaustively with 10^(-q/10).",
+    "note": "Trusted: `re` semantics of the two fixed patterns ^N+ / N+$, CPython str accessors, dnaio record slicing; doubles as "
+            "reals (summation order and rounding not verified); table tolerance 1e-12 relative.",
+    "assumptions": ["doubles are treated as reals", "sequence length <= 2^21 (C-int no-overflow precondition)",
+                    "regular expressions ^N+ and N+$ behave as documented on newline-free strings"],
+}
+
 _PENDING = "check not built yet in this revision (see DESIGN.md section 7 for the build order)"
 NOT_APPLICABLE = {
     "C12": "quantifies over fault sequences, crash points and schedules and contains a liveness clause; malformed-input detection "
